@@ -582,7 +582,10 @@ def compare(t, dk, sc, seed, mode="p4", regroup=0, out_mode="unyt"):
         d = compare_leaf(ca, cb, exact, values=values)
         if d:
             if role == "out" and _stale_out(ca, U):
-                continue  # reported through the result
+                # the buffer that received the result still carries the unit it was created with
+                if not any(w == "out-unit-stale" for w, _x in diffs):
+                    diffs.append(("out-unit-stale", f"operand {i} (out) after the call: {d[1]}"))
+                continue
             diffs.append(("operand-not-covariant", f"operand {i} ({role}) after the call: {d[0]}: {d[1]}"))
     info = {"result": a["result"], "call": call}
     if diffs:
